@@ -10,15 +10,15 @@ from hv.ref import cp as refcp
 ID = "C09"
 RULE = ("graphs built by the real analysis from C08's workload (G-sim, all window kinds, launch-edge flag on/off); for each graph "
         "the reported path is checked against an own topological-order DP longest path over the graph's weight attributes, then "
-        "3 (quick) / 8 (thorough) random re-weightings (scale, zero, inflate random edge subsets, incl. making a non-critical branch "
-        "dominant) each followed by CPGraph.critical_path() and the same checks. Non-trivial: graph with >= 2 distinct maximal paths "
+        "3 (quick) / 8 (thorough) random re-weightings (scale, zero, inflate random edge subsets, making a non-critical branch "
+        "dominant, and total-weight-conserving swaps / moves) each followed by CPGraph.critical_path() and the same checks. Non-trivial: graph with >= 2 distinct maximal paths "
         "candidates (>= 1 node with out-degree >= 2) and >= 10 edges. Distinct = hash of (trace, window, flag).")
 ASSUMPTIONS = ["own longest-path DP (hv/ref/cp.py::longest_path) trusted", "graphs come from in-regime traces (see C08)"]
 PLAN = {"quick": {"shards": 16, "cases": 480, "timeout": 900}, "thorough": {"shards": 16, "cases": 5000, "timeout": 3400}}
 FLOORS = {"quick": {"distinct_nontrivial": 100, "paths_checked": 1500, "reweighted_paths": 1000, "critical_path.post": 1500,
-                    "path_changed_after_reweight": 100},
+                    "path_changed_after_reweight": 100, "total_conserving_reweights": 300},
           "thorough": {"distinct_nontrivial": 1500, "paths_checked": 40000, "reweighted_paths": 30000, "critical_path.post": 40000,
-                       "path_changed_after_reweight": 3000}}
+                       "path_changed_after_reweight": 3000, "total_conserving_reweights": 9000}}
 
 
 def setup(ctx: Any) -> None:
@@ -113,8 +113,20 @@ def run_case(case: Dict[str, Any], ctx: Any) -> core.CaseResult:
         elist = list(g.edges)
         for k in range(n_rw):
             before = list(g.critical_path_nodes)
-            mode = rnd.choice(["scale", "zero", "inflate", "offpath"])
-            if mode == "offpath":
+            mode = rnd.choice(["scale", "zero", "inflate", "offpath", "swap", "move"])
+            if mode in ("swap", "move"):
+                # total weight is conserved: exchange the weights of two edges, or move an amount from a critical edge to another edge
+                onp = list(zip(before, before[1:]))
+                a = rnd.choice(onp) if (mode == "move" and onp) else rnd.choice(elist)
+                b = rnd.choice(elist)
+                wa, wb = g.edges[a]["weight"], g.edges[b]["weight"]
+                if mode == "swap":
+                    g.edges[a]["weight"], g.edges[b]["weight"] = wb, wa
+                else:
+                    amt = wa if wa > 0 else 0
+                    g.edges[a]["weight"], g.edges[b]["weight"] = wa - amt, wb + amt
+                res.counters["total_conserving_reweights"] += 1
+            elif mode == "offpath":
                 onp = set(zip(before, before[1:]))
                 cands = [e for e in elist if e not in onp] or elist
                 for (u, v) in rnd.sample(cands, min(len(cands), rnd.randint(1, 4))):
